@@ -196,7 +196,7 @@ func (f *fsm) runeConsts() (maxc int64, bad []string) {
 							}
 							if bt.Info()&types.IsString != 0 {
 								if bo, ok := ins.(*ssa.Call); ok {
-									if cal := bo.Call.StaticCallee(); cal != nil && cal.String() == "strings.Contains" {
+									if cal := bo.Call.StaticCallee(); cal != nil && cal.Pkg != nil && cal.Pkg.Pkg.Path() == "strings" {
 										for _, r := range constStr(c) {
 											if int64(r) > maxc {
 												maxc = int64(r)
@@ -240,11 +240,23 @@ func (f *fsm) extract(s *oblig.Set) {
 
 	runeT := types.Typ[types.Rune]
 	evals := 0
+	// computed package variables (lookup tables) have their real contents
+	var globals map[*ssa.Global]*absint.Cell
+	if sp := f.p.SPkg("lexer"); sp != nil {
+		if g, end := absint.InitGlobals(f.p.SSA, sp); end == nil {
+			globals = g
+		} else {
+			s.Note("package lexer's initialiser could not be evaluated (%s): package variables are unknown to the state functions", end.Error())
+		}
+	}
 	for _, st := range f.states {
 		f.T[st] = map[rune]trans{}
 		for _, r := range f.runes {
 			o := &absint.Oracle{}
 			in := absint.NewInterp(f.p.SSA, o)
+			if globals != nil {
+				in.Globals = globals
+			}
 			in.Hooks.Call = func(in *absint.Interp, fn *ssa.Function, args []absint.Val, site ssa.Instruction) (absint.Val, bool) {
 				if fn.Pkg != nil && fn.Pkg.Pkg.Path() == "log" {
 					// log.Panicf and friends abort the process
